@@ -366,7 +366,7 @@ func (w *WSCtx) build() ldcontext.Context {
 		b.SetValue(a.K, a.V.toLD())
 	}
 	c := b.Build()
-	if how == 2 && c.Err() == nil {
+	if how == 2 && c.Err() == nil && !ctxBuilderOnly {
 		if data, err := json.Marshal(c); err == nil {
 			var c2 ldcontext.Context
 			if json.Unmarshal(data, &c2) == nil && c2.Err() == nil {
